@@ -10,9 +10,11 @@ import (
 	"regexp"
 	"strings"
 	"sync"
+	"sync/atomic"
 	"time"
 
 	"github.com/netflix/rend/handlers/memcached/batched"
+	"github.com/netflix/rend/metrics"
 	"verifharness/gal"
 	"verifharness/rig"
 	"verifharness/stack"
@@ -115,6 +117,29 @@ func c14child(e *env) {
 	if e.tier == "thorough" {
 		rounds = 60
 	}
+	// metrics are shared by all connections: gauges are published and /metrics is scraped while the
+	// connections work (what the batching pool's monitor and a monitoring agent do)
+	ig := metrics.AddIntGauge("verifc14_int_gauge", nil)
+	fg := metrics.AddFloatGauge("verifc14_float_gauge", nil)
+	var mstop int32
+	var mwg sync.WaitGroup
+	mwg.Add(2)
+	go func() {
+		defer mwg.Done()
+		for k := uint64(1); atomic.LoadInt32(&mstop) == 0; k++ {
+			metrics.SetIntGauge(ig, k)
+			metrics.SetFloatGauge(fg, float64(k))
+			time.Sleep(50 * time.Microsecond)
+		}
+	}()
+	go func() {
+		defer mwg.Done()
+		for atomic.LoadInt32(&mstop) == 0 {
+			fetchMetrics()
+			time.Sleep(2 * time.Millisecond)
+		}
+	}()
+	defer func() { atomic.StoreInt32(&mstop, 1); mwg.Wait() }()
 	for round := 0; round < rounds; round++ {
 		nconn := []int{2, 4, 8, 16, 32, 64}[round%6]
 		// every third round: both tiers through batching pools (shared backend connections and
